@@ -14,7 +14,7 @@ CHECKS = {
         "thorough": {"shards": 16, "checks": 3000},
         "rule": "rapid-generated block histories from the empty accumulator (deletion modes none/all/whole trees/sibling pairs/lone root/climbed/"
                 "all-but-one/one/p=1/8,1/2,7/8; addition modes 0,1,2,3,to 2^k-1,to 2^k,past 2^k,random) applied in lock-step to Stump, Pollard and 2-3 "
-                "MapPollard configurations (full and partial, TotalRows from {0..6,8,16,31,32,33,62,63} or uniform 0..63) and compared with the "
+                "MapPollard configurations (full and partial, TotalRows from {0..6,8,16,31,32,33,62,63} or uniform 0..63; half of the partial ones 'direct': Modify without a preceding Verify(remember) when every deleted leaf is already cached; before a third of the blocks a partial forest is asked to Prune a drawn subset of what it remembers) and compared with the "
                 "reference model after every block, plus the same survivors re-batched (one-shot / split / re-cut). Non-trivial: some block deletes and "
                 "some block adds and at least one of: a whole tree emptied, an empty root overwritten by additions, TreeRows changes, a leaf at row>=2. "
                 "Distinct by SHA-256 of the case JSON.",
@@ -24,7 +24,7 @@ CHECKS = {
         "test": "TestC02",
         "quick": {"shards": 8, "checks": 8000},
         "thorough": {"shards": 16, "checks": 5000},
-        "rule": "histories as in C01; after every block up to 3 prove requests (one / two / sibling pairs / all / random third / one per tree / one per row, "
+        "rule": "histories as in C01 (incl. Prune requests and direct partial forests); after every block up to 3 prove requests (one / two / sibling pairs / all / random third / one per tree / one per row, "
                 "in ascending, descending or rapid-permuted order) sent to Pollard, a full MapPollard and a partial MapPollard (restricted to the leaves it "
                 "was asked to remember); each proof compared hash-for-hash with the model's canonical proof and fed to Verify, Pollard.Verify and every "
                 "MapPollard.Verify; Verify's root indexes compared as a set with the trees holding the targets. Non-trivial case: contains a request with "
@@ -132,7 +132,7 @@ CHECKS["C05"] = {
     "test": "TestC05",
     "quick": {"shards": 8, "checks": 6000},
     "thorough": {"shards": 16, "checks": 12000},
-    "rule": "a generated history builds the state in Stump, Pollard, a full and a partial MapPollard (generated TotalRows) and a light client's cached proof; "
+    "rule": "a generated history (with Prune requests to the partial forest; partial forest 'direct' in half of the cases: Modify without Verify(remember) when the deleted leaves are already cached) builds the state in Stump, Pollard, a full and a partial MapPollard (generated TotalRows) and a light client's cached proof; "
             "then one block deletes a generated live target set (shapes as in C02) whose proof is encoded as: canonical / targets+hashes permuted in parallel / "
             "1-3 junk hashes appended / assembled by AddProof from two (possibly overlapping) honest proofs / cut by GetProofSubset from a larger honest proof / "
             "cut from the cached proof maintained by Proof.Update; followed by 0..k additions and optionally one honest follow-up block. Precondition checked, "
@@ -359,7 +359,7 @@ CHECKS["C17"] = {
             "roots guarded too), Pollard.Verify, MapPollard.Verify (full; partial with remember), MapPollard.GetMissingPositions, VerifyPartialProof, AddProof, GetProofSubset, "
             "Stump.Update, Proof.Update (UpdateData fields guarded), Pollard.Modify, MapPollard.Modify (full, partial) and, in a third of the blocks, Undo on all three forests and "
             "Proof.Undo followed by applying the same data again. After EVERY call every guarded argument (whole backing array, 0..cap) and every slice the library returned "
-            "earlier in the case (proofs, update data, hash lists, roots, stump snapshots, missing positions; last 60) is compared with its snapshot. Non-trivial: a block with >=2 "
+            "earlier in the case (proofs, update data, hash lists, roots, stump snapshots, missing positions, and the cached Proof value itself after every Proof.Update / Proof.Undo; last 60) is compared with its snapshot. Non-trivial: a block with >=2 "
             "deletions given in non-ascending target order on a state that already has a deleted leaf.",
     "assumptions": COMMON_ASSUME + ["the spare capacity behind a passed slice is the caller's memory (callers pass sub-slices such as hashes[:1]); writes there are reported with their own message",
                                     "a wrong root or a refused honest call with all guards intact is another property's business (counted as setup-failed, not reported here)"],
